@@ -152,6 +152,161 @@ theorem validator_code (re : Regex) (oracle : AsyncOracle) (v : String) (f : Fil
                    | error e => simp [hs] at h
                    | ok sev => simp only [hs, Except.ok.injEq, Option.some.injEq] at h; rw [← h]; rfl)
 
+/-- `affects` diagnostics carry the code `affects` -/
+theorem affects_code (ctx : List FileCtx) (f : FileCtx) (l : List Diag) (h : Except.ok l ∈ affectsFile ctx f) :
+    ∀ d ∈ l, d.code = "affects" := by
+  unfold affectsFile at h
+  obtain ⟨b, _, hb⟩ := List.mem_map.1 h
+  split at hb
+  · injection hb with hb; subst hb; intro d hd; cases hd
+  · split at hb
+    · injection hb with hb; subst hb; intro d hd; cases hd
+    · split at hb
+      · cases hb
+      · simp only [affectsDiags] at hb
+        split at hb
+        · split at hb
+          · injection hb with hb; subst hb; intro d hd; cases hd
+          · cases hb
+        · injection hb with hb
+          subst hb
+          intro d hd
+          obtain ⟨x, _, rfl⟩ := List.mem_map.1 hd
+          rfl
+
+/-- all diagnostics of validator `v` carry the code `v` -/
+theorem results_code (re : Regex) (oracle : AsyncOracle) (ctx : List FileCtx) (v : String) (hv : v ∈ Gen.detectorNames)
+    (r : Text × Except ErrKind (List Diag)) (hr : r ∈ validatorResults re oracle ctx v) (l : List Diag) (hl : r.2 = .ok l) :
+    ∀ d ∈ l, d.code = v := by
+  unfold validatorResults at hr
+  split at hr
+  · rename_i ha
+    subst ha
+    simp only [List.mem_flatten, List.mem_map] at hr
+    obtain ⟨rs, ⟨f, _, rfl⟩, hr⟩ := hr
+    obtain ⟨x, hx, rfl⟩ := List.mem_map.1 hr
+    simp only at hl
+    subst hl
+    exact affects_code ctx f l hx
+  · rename_i hna
+    simp only [List.mem_flatten, List.mem_map] at hr
+    obtain ⟨rs, ⟨f, _, rfl⟩, hr⟩ := hr
+    obtain ⟨b, _, rfl⟩ := List.mem_map.1 hr
+    simp only at hl
+    have hv' : v ∈ ["keep-sorted", "keep-unique", "line-pattern", "line-count", "check-lua", "check-ai"] := by
+      have hall : ∀ x ∈ Gen.detectorNames, x = "affects" ∨
+          x ∈ ["keep-sorted", "keep-unique", "line-pattern", "line-count", "check-lua", "check-ai"] := by decide
+      rcases hall v hv with h | h
+      · exact absurd h hna
+      · exact h
+    cases hc : checkBlock re oracle v f b with
+    | error e => rw [hc] at hl; cases hl
+    | ok o =>
+      rw [hc] at hl
+      simp only [Except.map] at hl
+      injection hl with hl
+      subst hl
+      cases o with
+      | none => intro d hd; cases hd
+      | some d0 =>
+        intro d hd
+        simp only [Option.toList, List.mem_singleton] at hd
+        subst hd
+        exact validator_code re oracle v f b d hv' hc
+
+theorem resultDiags_append (a b : List (Text × Except ErrKind (List Diag))) :
+    resultDiags (a ++ b) = resultDiags a ++ resultDiags b := by
+  simp [resultDiags]
+
+theorem resultErrors_append (a b : List (Text × Except ErrKind (List Diag))) :
+    resultErrors (a ++ b) = resultErrors a ++ resultErrors b := by
+  simp [resultErrors]
+
+/-- diagnostics of the validators in `vs` with validator `v` removed = the diagnostics of `vs` minus those coded `v` -/
+theorem diags_without (re : Regex) (oracle : AsyncOracle) (ctx : List FileCtx) (v : String) (vs : List String)
+    (hvs : ∀ w ∈ vs, w ∈ Gen.detectorNames) :
+    resultDiags (((vs.filter (· ≠ v)).map (validatorResults re oracle ctx)).flatten) =
+      (resultDiags ((vs.map (validatorResults re oracle ctx)).flatten)).filter (fun d => d.2.code ≠ v) := by
+  induction vs with
+  | nil => simp [resultDiags]
+  | cons w ws ih =>
+    have ihw := ih (fun x hx => hvs x (by simp [hx]))
+    have hw := hvs w (by simp)
+    simp only [List.map_cons, List.flatten_cons, resultDiags_append, List.filter_append]
+    have hcodes : ∀ d ∈ resultDiags (validatorResults re oracle ctx w), d.2.code = w := by
+      intro d hd
+      simp only [resultDiags, List.mem_flatten, List.mem_map] at hd
+      obtain ⟨l, ⟨r, hr, rfl⟩, hd⟩ := hd
+      cases hr2 : r.2 with
+      | error e => rw [hr2] at hd; cases hd
+      | ok lst =>
+        rw [hr2] at hd
+        obtain ⟨x, hx, rfl⟩ := List.mem_map.1 hd
+        exact results_code re oracle ctx w hw r hr lst hr2 x hx
+    by_cases hwv : w = v
+    · subst hwv
+      have : (List.filter (fun d => decide (d.2.code ≠ w)) (resultDiags (validatorResults re oracle ctx w))) = [] := by
+        rw [List.filter_eq_nil_iff]
+        intro d hd
+        simp [hcodes d hd]
+      simp only [List.filter_cons, ne_eq, not_true_eq_false, decide_false, Bool.false_eq_true, if_false, this, List.nil_append]
+      exact ihw
+    · have : (List.filter (fun d => decide (d.2.code ≠ v)) (resultDiags (validatorResults re oracle ctx w))) =
+          resultDiags (validatorResults re oracle ctx w) := by
+        rw [List.filter_eq_self]
+        intro d hd
+        rw [hcodes d hd]
+        simpa using hwv
+      simp only [List.filter_cons, ne_eq, hwv, not_false_eq_true, decide_true, if_true, List.map_cons, List.flatten_cons,
+        resultDiags_append, this]
+      rw [ihw]
+
+theorem errors_without (re : Regex) (oracle : AsyncOracle) (ctx : List FileCtx) (v : String) (vs : List String) :
+    ∀ e ∈ resultErrors (((vs.filter (· ≠ v)).map (validatorResults re oracle ctx)).flatten),
+      e ∈ resultErrors ((vs.map (validatorResults re oracle ctx)).flatten) := by
+  induction vs with
+  | nil => simp
+  | cons w ws ih =>
+    intro e he
+    simp only [List.map_cons, List.flatten_cons, resultErrors_append, List.mem_append]
+    by_cases hwv : w = v
+    · subst hwv
+      simp only [List.filter_cons, ne_eq, not_true_eq_false, decide_false, Bool.false_eq_true, if_false] at he
+      exact Or.inr (ih e he)
+    · simp only [List.filter_cons, ne_eq, hwv, not_false_eq_true, decide_true, if_true, List.map_cons, List.flatten_cons,
+        resultErrors_append, List.mem_append] at he
+      rcases he with he | he
+      · exact Or.inl he
+      · exact Or.inr (ih e he)
+
+/-- **`--disable V` removes exactly V's diagnostics**: if the run without the extra flag succeeds with diagnostics
+    `ds`, the run with `-d V` succeeds with `ds` minus the diagnostics coded `V` - every other diagnostic is
+    identical, none is added -/
+theorem disable_removes_exactly_diags (re : Regex) (oracle : AsyncOracle) (ctx : List FileCtx) (dis : List String) (v : String)
+    (ds : List (Text × Diag)) (h : run re oracle ctx [] dis = .ok ds) :
+    run re oracle ctx [] (v :: dis) = .ok (ds.filter (fun d => d.2.code ≠ v)) := by
+  have hD : ∀ w ∈ detected ctx [] dis, w ∈ Gen.detectorNames := by
+    intro w hw
+    have := ((detected_mem ctx [] dis w).1 hw).1
+    exact ((chosen_def [] dis w).1 this).1
+  unfold run at h ⊢
+  simp only at h ⊢
+  unfold runResults at h ⊢
+  rw [disable_removes_exactly]
+  split at h
+  · rename_i hemp
+    injection h with h
+    have hnone : resultErrors (((detected ctx [] dis).filter (· ≠ v)).map (validatorResults re oracle ctx)).flatten = [] := by
+      cases hl : resultErrors (((detected ctx [] dis).filter (· ≠ v)).map (validatorResults re oracle ctx)).flatten with
+      | nil => rfl
+      | cons e es =>
+        have := errors_without re oracle ctx v (detected ctx [] dis) e (by rw [hl]; simp)
+        rw [List.isEmpty_iff] at hemp
+        rw [hemp] at this; cases this
+    simp only [hnone, List.isEmpty_nil, if_true]
+    rw [diags_without re oracle ctx v _ hD, h]
+  · cases h
+
 /-- the detector table (regenerated from the source) holds the seven validators, each once -/
 theorem detector_table : Gen.detectorNames.length = 7 ∧ Gen.detectorNames.Nodup ∧
     ∀ v ∈ ["affects", "keep-sorted", "keep-unique", "line-pattern", "line-count", "check-ai", "check-lua"],
